@@ -70,6 +70,7 @@ def run_case(task):
         ex.keep_models = ob.get('validate', 6)
         ex.domain_checks = ob.get('domain_checks', False)
         ex.record_reads = ob.get('record_reads', False)
+        if 'slicing' in ob: ex.slicing = ob['slicing']
         if ob.get('setup'): ob['setup'](ex)
         cap = ob.get('time_cap', 280 if tier == 'quick' else 2400)
         try:
